@@ -20,7 +20,6 @@ class StreamNode(ConfigList):
     _default_delete = False
 
     def __init__(self, builder, **kwargs):
-        kwargs.setdefault('delete', False)
         super().__init__(builder.stages, **kwargs)
         self.builder = builder
 
